@@ -230,6 +230,7 @@ type DispatchWorld struct {
 	pub     []*dmsg
 	inDeliver map[string]*Task // message id -> worker currently between dequeue and settlement
 	interTrace string
+	settleLog  []string
 	taskItems  map[*Task][]queue.Envelope // what each worker holds (from its last dequeue)
 	expect     map[string]*settlement      // by lease id: the settlement the recorded outcome calls for
 }
@@ -336,6 +337,9 @@ func (w *DispatchWorld) onDequeue(req queue.DequeueRequest, resp queue.DequeueRe
 	if len(resp.Items) > 0 {
 		w.Res.probe("dispatch.dequeue.nonempty")
 	}
+	// a dequeue may have released expired leases (of any route): adopt that now,
+	// not at the end of the step, so that later calls are judged against it
+	w.sync("dequeue")
 }
 
 // onAttempt: the dispatcher recorded the outcome of one delivery. Everything
@@ -621,6 +625,9 @@ func (w *DispatchWorld) onLease(method string, ids []string, d time.Duration, re
 			if d < ex.lo || d > ex.hi {
 				w.add("C06.backoff", "C06", loc, "retry of %s after attempt %d scheduled with delay %s, contract says [%s, %s]", dm.token, ex.attempt, d, ex.lo, ex.hi)
 			}
+			// one batch call per distinct delay is issued in map order by the
+			// product: the calls touch disjoint leases, so the log sorts them
+			w.settleLog = append(w.settleLog, fmt.Sprintf("  retry of %s after attempt %d in %s", dm.token, ex.attempt, d))
 			w.Res.probe("settle.retry")
 		case "dead":
 			if reason != ex.reason {
@@ -646,6 +653,11 @@ func (w *DispatchWorld) onLease(method string, ids []string, d time.Duration, re
 
 // sync compares the queue with the model and learns ids of new messages.
 func (w *DispatchWorld) sync(desc string) {
+	sort.Strings(w.settleLog)
+	for _, l := range w.settleLog {
+		w.Res.logf("%s", l)
+	}
+	w.settleLog = nil
 	items, err := w.Listing()
 	if err != nil {
 		w.add("C02.list.error", "C02", "dispatch", "listing failed: %v", err)
